@@ -265,3 +265,62 @@ func TestLongHistory(t *testing.T) {
 }
 
 var _ = strings.HasPrefix
+
+// TestRoundExecutedAgain: a round whose dead nodes were recorded is abandoned and executed again at the same version on top
+// of the same previous root (as an empty round, or with other writes); the execution that counts is the second one and
+// its report replaces the first. A later round builds on it; pruning below that round's version leaves its root readable.
+func TestRoundExecutedAgain(t *testing.T) {
+	ev.Rapid(t, 300, 2500)
+	rapid.Check(t, func(rt *rapid.T) {
+		dir := rounds.NewDir()
+		defer mptkit.DropDir(dir)
+		model := map[string][]byte{}
+		var used []string
+		v0 := int64(gen.Uniform(rt, 1, 5, "v0"))
+		round := func(v int64, n int, label string) rounds.Round {
+			ops := mptkit.GenOpsP(rt, model, &used, n, 3, 30, label)
+			return rounds.Round{Version: v, Txns: []rounds.Txn{{Ops: ops, Merge: true}}}
+		}
+		var log []string
+		exec := func(prev []byte, rd rounds.Round, what string) []byte {
+			root, _, err := rounds.ExecRound(dir, prev, rd)
+			if err != nil {
+				rt.Fatalf("%v: %s (version %d): %v", log, what, rd.Version, err)
+			}
+			log = append(log, fmt.Sprintf("%s v%d %v", what, rd.Version, rd.Txns))
+			return root
+		}
+		root1 := exec(nil, round(v0, gen.Uniform(rt, 2, 8, "n1"), "r1"), "round")
+		model1 := mptkit.CopyContent(model)
+		// first execution of the next round: recorded, then abandoned
+		exec(root1, round(v0+1, gen.Uniform(rt, 1, 6, "n2a"), "r2a"), "abandoned execution of round")
+		// second execution on top of the same previous root
+		model = mptkit.CopyContent(model1)
+		n2 := 0
+		if gen.Chance(rt, 50, "secondnonempty") {
+			n2 = gen.Uniform(rt, 1, 6, "n2b")
+		}
+		rd2 := round(v0+1, n2, "r2b")
+		if n2 == 0 {
+			rd2.Txns = nil
+		}
+		root2 := exec(root1, rd2, "second execution of round")
+		model2 := mptkit.CopyContent(model)
+		root3 := exec(root2, round(v0+2, gen.Uniform(rt, 1, 6, "n3"), "r3"), "round")
+		model3 := mptkit.CopyContent(model)
+		pv := v0 + int64(gen.Uniform(rt, 1, 3, "prunebelow"))
+		if err := rounds.Prune(dir, pv); err != nil {
+			rt.Fatalf("%v: prune below %d: %v", log, pv, err)
+		}
+		log = append(log, fmt.Sprintf("prune below %d", pv))
+		for _, sv := range []rounds.Saved{{Version: v0 + 1, Root: root2, Model: model2}, {Version: v0 + 2, Root: root3, Model: model3}} {
+			if sv.Version < pv {
+				continue
+			}
+			if err := rounds.CheckReadable(dir, sv); err != nil {
+				rt.Fatalf("%v: after the prune the root of version %d: %v", log, sv.Version, err)
+			}
+		}
+		ev.Case(fmt.Sprint(log), true, "round-executed-again", fmt.Sprintf("second-execution-empty:%v", n2 == 0))
+	})
+}
